@@ -176,8 +176,10 @@ def impl_fitted(c):
     n, p, s = c["n"], c["p"], c["scale"]
     X = np.random.default_rng(c["seed"]).normal(size=(n, p))
     form = core._bits(c, 0, 3)
-    if form == 1:
-        s = np.float64(s)
+    if form == 1:  # NumPy scalars of several types, whenever they hold the value exactly
+        cands = [np.float64(s)] + ([np.float32(s)] if float(np.float32(s)) == float(s) else []) + \
+                ([np.int64(int(s)), np.int32(int(s))] if float(s) == int(s) else [])
+        s = cands[core._bits(c, 8, 16) % len(cands)]
     elif form == 2 and float(s) == int(s):
         s = int(s)
     try:
@@ -221,16 +223,31 @@ def impl_tuned(c):
 
     g = np.random.default_rng(c["seed"])
     X = g.integers(-2, 3, size=(c["n"], c["p"])).astype(float) if c["ties"] else g.normal(size=(c["n"], c["p"]))
+    # in half of the cases the same instance was fitted before on OTHER data of the same shape (much larger changes): the
+    # tuned threshold must be that of the data of the last fit
+    prev = None
+    if core._bits(c, 0, 2):
+        prev = g.normal(size=X.shape) * 9.0
+        prev[len(prev) // 2:] += 40.0
     try:
         if c["det"] == "mw":
-            det = MW(bandwidth=c["b"], threshold_scale=None, level=c["level"]).fit(X)
+            det = MW(bandwidth=c["b"], threshold_scale=None, level=c["level"])
+            if prev is not None:
+                det.fit(prev)
+            det.fit(X)
             scores = np.asarray(det.transform_scores(X)).reshape(-1)
         elif c["det"] == "sbs":
-            det = SBS(threshold_scale=None, level=c["level"], min_segment_length=2).fit(X)
+            det = SBS(threshold_scale=None, level=c["level"], min_segment_length=2)
+            if prev is not None:
+                det.fit(prev)
+            det.fit(X)
             det.predict(X)
             scores = det.scores["score"].to_numpy()
         else:
-            det = CBS(threshold_scale=None, level=c["level"], min_segment_length=2, max_interval_length=20).fit(X)
+            det = CBS(threshold_scale=None, level=c["level"], min_segment_length=2, max_interval_length=20)
+            if prev is not None:
+                det.fit(prev)
+            det.fit(X)
             det.predict(X)
             scores = det.scores["score"].to_numpy()
         return {"outcome": "ok", "thr": float(det.threshold_), "scores": [float(v) for v in scores]}
